@@ -63,6 +63,7 @@ void *g_alloc_end_aligned(size_t size, size_t align); /* end-flush rounded down 
 int g_check(void);                              /* 0 ok; else number of damaged canary bytes */
 void g_reset(void);
 void g_revoke(void *p);                         /* make the slot of p PROT_NONE until g_reset */
+int g_owns(void *p);                           /* 1 if p lies in a live arena slot */
 void g_readonly(void *p, int ro);               /* slot PROT_READ / PROT_READ|WRITE */
 const char *g_last_damage(void);
 void *g_persist(size_t size, int placement);       /* guarded, never recycled */
